@@ -312,11 +312,11 @@ def is_some(f, p, ev_index, x):
                 src = (i, ev)
         if src:
             i, ev = src
-            key = (norm_base(ev.args[0]), ev.vers[0] if ev.vers else 0)
-            # ZmqMessage::len / VecDeque::len on the same container
-            lf = LenFacts(p.conds[:ev.ncond], key)
-            if lf.ge_const(1):
-                return True, "len>=%s before %s" % (lf.iv.lo, short(ev.name))
+            for key in ((norm_base(ev.args[0]), ev.vers[0] if ev.vers else 0), view_key(ev.args[0])):
+                # ZmqMessage::len / VecDeque::len / String::len on the same container
+                lf = LenFacts(p.conds[:ev.ncond], key)
+                if lf.ge_const(1):
+                    return True, "len>=%s before %s" % (lf.iv.lo, short(ev.name))
         return False, "no guard LEN>=1 before %s" % short(x[1])
     # take()/replace() of a place known to be Some
     if x[0] == "call" and short(x[1]) in ("take",) and x[2]:
@@ -469,7 +469,7 @@ def discharge(f, p, i, ev, kind):
     return False, "unknown kind"
 
 
-def evaluate(f, body, paths, allow=None, extra_sites=None):
+def evaluate(f, body, paths, allow=None, extra_sites=None, extra_discharge=None):
     """Evaluate every obligation site of `body` over `paths`. -> list of dict(site, ok, reason, npaths)"""
     allow = allow or {}
     sites = {(s["fn"], s["bb"]): s for s in inventory(body)}
@@ -487,6 +487,10 @@ def evaluate(f, body, paths, allow=None, extra_sites=None):
             if (s["kind"] == "assert") != (ev.kind == "assert"):
                 continue
             ok, why = discharge(f, p, i, ev, s["kind"])
+            if not ok and extra_discharge is not None:
+                alt = extra_discharge(f, p, i, ev, s)
+                if alt is not None:
+                    ok, why = alt
             res[k]["paths"] += 1
             if ok:
                 res[k]["reasons"].add(why)
